@@ -150,7 +150,7 @@ func c19Record(tier string, seed int64, emit func(interface{})) {
 			"md": clampInt(md), "mdok": md == math.Round(md), "defok": defaultHelperOK(s), "caseok": caseBlind(s, C, na, mg)})
 		// a sweep: one concentration increases through off-grid values
 		g++
-		axis := rng.Intn(3)
+		axis := rng.Intn(4) // 3: trace magnesium, from none at all through fractions of a micromole per litre
 		C, na, mg = math.Pow(10, -9+6*rng.Float64()), math.Pow(10, -3+3*rng.Float64()), 0.1*rng.Float64()*float64(rng.Intn(2))
 		steps := 6
 		base := 1.05 + rng.Float64()*3
@@ -162,8 +162,10 @@ func c19Record(tier string, seed int64, emit func(interface{})) {
 				c2 = math.Min(C*f, 1e-3)
 			case 1:
 				n2 = math.Min(na*f, 1)
-			default:
+			case 2:
 				m2 = math.Min(0.0001*f+mg*0, 0.1)
+			default:
+				m2 = []float64{0, 2e-7, 5e-7, 9e-7, 2e-6, 1e-5}[r]
 			}
 			if r > 0 && ((axis == 0 && c2 >= 1e-3) || (axis == 1 && n2 >= 1) || (axis == 2 && m2 >= 0.1)) {
 				break
